@@ -200,3 +200,22 @@ def ligand_hetatm(mol2_path, resname="LIG", chain="L", resseq=500, move_to=None)
     shift = (np.array(move_to, dtype=float) - cen) if move_to is not None else np.zeros(3)
     return [{"rec": "HETATM", "name": n, "resname": resname, "chain": chain, "resseq": resseq, "icode": "",
              "xyz": p + shift} for n, p in at]
+
+
+def nucleic(seq, kind="D", chain="N", start=1, hydrogens=False, origin=(0.0, 0.0, 0.0), names=None, step=(0.0, 0.0, 7.0)):
+    """seq: bases, e.g. "ACGT" (kind "D": DNA residues DA DC DG DT; "R": RNA A C G U).  Template copies translated by
+    `step` per nucleotide (pdb2pqr makes no inter-nucleotide geometry checks)."""
+    atoms = []
+    for i, b in enumerate(seq):
+        tname = ("D" if kind == "D" else "R") + b
+        if tname not in definitions().map:
+            raise KeyError(tname)
+        tpl = template(tname)
+        pdbname = (names[i] if names else (("D" + b) if kind == "D" else b))
+        for n, p in tpl.items():
+            if not hydrogens and n.startswith("H"):
+                continue
+            atoms.append({"rec": "ATOM", "name": n, "resname": pdbname, "chain": chain, "resseq": start + i, "icode": "",
+                          "xyz": p + np.array(origin) + i * np.array(step), "res_index": i,
+                          "element": n[0]})
+    return atoms
